@@ -72,16 +72,18 @@ def _reg(name, base, kind, tol, floor=1e-3, **kw):
     FAMS[name] = d
 
 
-_reg("Noh", "Noh", "ray", 1e-11)                      # measured worst 1.3e-15
-_reg("Cog19", "Cog19", "ray", 1e-11)                  # measured worst 1.1e-15
-_reg("IGEOS", "IGEOS", "ray", 1e-10)                  # measured worst 3.4e-13 (same root solve at every node)
-_reg("IGEOS_table", "IGEOS_table", "ray", 1e-10)      # measured worst 2.6e-12
-_reg("GenEOS", "GenEOS", "ray", 2e-3, floor=1e-1, extra={"num_x_pts": 20001}, cell=True)         # class C; measured worst see TOL note below
-_reg("GenEOS_table", "GenEOS_table", "ray", 2e-3, floor=1e-1, extra={"num_x_pts": 20001}, cell=True)
-_reg("EHEP", "EHEP", "ehep", 1e-11)                   # measured worst 8.9e-16
-_reg("Mader", "Mader", "ray", 1e-10)                  # measured worst 2.2e-13 (differences of powers in the cell average)
-_reg("Sedov", "Sedov", "sedov", 1e-9, floor=1e-1)     # measured worst 5.2e-13
-_reg("Guderley", "Guderley", "guderley", 1e-9)        # measured worst 6e-12
+# measured = worst mismatch of the unchanged code over the thorough graph (518 roots, words <= 3, 2026-09-26)
+_reg("Noh", "Noh", "ray", 1e-11)                      # measured 7.7e-16
+_reg("Cog19", "Cog19", "ray", 1e-11)                  # measured 7.8e-16
+_reg("IGEOS", "IGEOS", "ray", 1e-9)                   # measured 1.1e-11 (class B: same bisection at every node, fan evaluated at x/t)
+_reg("IGEOS_table", "IGEOS_table", "ray", 1e-9)       # measured 2.7e-13
+# class C: values are interpolated on linspace(window, num_x_pts=20001), window not similarity-invariant; measured 2.4e-4 (a = 1/27, fan over ~40 cells)
+_reg("GenEOS", "GenEOS", "ray", 3e-3, floor=1e-1, extra={"num_x_pts": 20001}, cell=True)
+_reg("GenEOS_table", "GenEOS_table", "ray", 3e-3, floor=1e-1, extra={"num_x_pts": 20001}, cell=True)      # measured 8.8e-5
+_reg("EHEP", "EHEP", "ehep", 1e-11)                   # measured 1.1e-13
+_reg("Mader", "Mader", "ray", 1e-10)                  # measured 2.8e-13 (differences of powers in the cell average)
+_reg("Sedov", "Sedov", "sedov", 1e-9, floor=1e-1)     # measured 7.2e-11 (fminbound on (lambda(v) - lambda_want)^2, 3001-point grid)
+_reg("Guderley", "Guderley", "guderley", 1e-9)        # measured 2.4e-13; lambda cross-check: measured 6.4e-11, tolerance 1e-7
 ORDER = ["Noh", "Cog19", "IGEOS", "IGEOS_table", "GenEOS", "GenEOS_table", "EHEP", "Mader", "Sedov", "Guderley"]
 
 
@@ -340,7 +342,7 @@ def run_task(task):
             err = abs(lam_obs - lam) / lam
             res["lambda_err"] = err
             dg.add(r1, r2)
-            if err > 1e-7:       # measured: <= 2e-9 (shock located to 1e-10)
+            if err > 1e-7:       # measured: <= 6.4e-11 (shock located to 1e-10 of the window)
                 res["violations"].append({"solver": F["name"], "cfg": cfg, "clause": "similarity:lambda-vs-shock-trajectory", "where": {"t": t},
                                           "value": err, "tol": 1e-7, "detail": {"lambda_solver": lam, "lambda_from_trajectory": lam_obs,
                                                                                "r_shock": [r1, r2], "t": [t, t2]}})
